@@ -48,7 +48,16 @@ var deviceKnownFields = []string{"noLogs", "config", "InputDevice", "outputEvent
 func (d *dev) newHelpers() map[*ssa.Function]bool {
 	out := map[*ssa.Function]bool{}
 	for _, f := range d.p.Funcs {
-		if f.Parent() != nil || f.Pkg == nil || f.Pkg.Pkg.Path() != pkgDevice || len(f.Blocks) == 0 || f.Synthetic != "" {
+		if f.Parent() != nil || f.Pkg == nil || len(f.Blocks) == 0 || f.Synthetic != "" {
+			continue
+		}
+		if pp := f.Pkg.Pkg.Path(); pp != pkgDevice {
+			// every function of a package the reference tree does not have (arithmetic moved into a new internal package) is a
+			// new helper too
+			if !d.p.owned(pp) || isExpectedPkg(pp) {
+				continue
+			}
+			out[f] = true
 			continue
 		}
 		known := deviceKnownNames[f.Name()]
@@ -1065,4 +1074,13 @@ func helperReturns(p *Program, v ssa.Value) ([]ssa.Value, bool) {
 		}
 	}
 	return out, len(out) > 0
+}
+
+func isExpectedPkg(path string) bool {
+	for _, e := range expectedPkgs {
+		if e == path {
+			return true
+		}
+	}
+	return false
 }
